@@ -267,8 +267,8 @@ Definition is_op7 (h : hop) : bool := match h with HObtain | HRenew _ | HManage 
 Inductive quar (st : storage) (i : nat) (d : N) : storage -> Prop :=
 | q_none : quar st i d st
 | q_del : quar st i d (sdel st (i, d, FKey))
-| q_put v : quar st i d (sput st (i, d, FComp) v)
-| q_put_del v : quar st i d (sdel (sput st (i, d, FComp) v) (i, d, FKey)).
+| q_put v : sget st (i, d, FKey) = Some v -> quar st i d (sput st (i, d, FComp) v)
+| q_put_del v : sget st (i, d, FKey) = Some v -> quar st i d (sdel (sput st (i, d, FComp) v) (i, d, FKey)).
 Definition qkeeps (i : nat) (d : N) (c c1 : core) : Prop :=
   k_ocsp c1 = k_ocsp c /\ k_nkey c1 = k_nkey c /\ k_nser c1 = k_nser c /\ quar (k_st c) i d (k_st c1).
 Lemma qkeeps_refl i d c : qkeeps i d c c.
@@ -280,9 +280,9 @@ Proof.
   unfold qkeeps, move_compromised, load, store, delete, prim, bind, catch, ret, fail. cbn.
   repeat match goal with
          | |- context [if ?b then _ else _] => destruct b; cbn
-         | |- context [match sget ?s ?k with _ => _ end] => destruct (sget s k); cbn
+         | |- context [match sget ?s ?k with _ => _ end] => destruct (sget s k) eqn:?; cbn
          end;
-    (split; [repeat split; try reflexivity; constructor | discriminate]).
+    (split; [repeat split; try reflexivity; constructor; assumption | discriminate]).
 Qed.
 
 Section Gen.
@@ -713,7 +713,7 @@ Lemma quar_sget st q d st1 j d' kd :
 Proof.
   intros HQ Hk. destruct HQ; rewrite ?sget_sdel, ?sget_sput, ?fkey_eqb_dir; try reflexivity;
     destruct kd; try contradiction; cbn; rewrite ?andb_false_r, ?andb_true_r; try reflexivity;
-    destruct (same_dir q d j d'); cbn; intros H; try discriminate; reflexivity.
+    destruct (same_dir q d j d'); cbn; intros Hx; try discriminate; reflexivity.
 Qed.
 Lemma quar_bundle st q d st1 j d' b : quar st q d st1 -> bundle_at st1 j d' = Some b -> bundle_at st j d' = Some b.
 Proof.
@@ -845,6 +845,9 @@ Proof.
     cbn. apply N.eqb_eq, Hp.
   - apply faulted_effect_rev_calm; assumption.
 Qed.
+
+Lemma typed_break_lock w : typed (k_st (w_core w)) -> typed (k_st (w_core (break_lock w))).
+Proof. intros H. exact H. Qed.
 
 (** helpers to establish the hypotheses on concrete storages *)
 Definition keys_of (st : storage) : list keyid :=
